@@ -3,24 +3,24 @@ CONSTANTS
   AckMode = "shaped"
   ThrMode = "fixed"
   EmptyMode = "fixed"
-  CfgSet <- CoreCfgs
-  SameCfg = FALSE
+  CfgSet <- TinyCfg
+  SameCfg = TRUE
   Openers = {"A"}
   MaxOpens = 1
   Ids = {1}
   Hosts = {"h0"}
-  MaxWrites = 3
-  Lens = {1, 2}
-  ReadMax = {1, 4}
-  Closers = {}
+  MaxWrites = 1
+  Lens = {1}
+  ReadMax = {4}
+  Closers = {"A"}
   MuxDroppers = {}
   DgSenders = {}
   MaxDgrams = 0
   Binders = {}
   MaxBinds = 0
   Faults = {}
-  AdvMsgs = {}
-  MaxAdv = 0
+  AdvMsgs <- AdvSet
+  MaxAdv = 3
   MaxHandles = 2
   MaxCtr = 1
 VIEW View
